@@ -10,7 +10,8 @@ from . import replyprops
 
 THEOREMS_T = ["c18_translated_attribute_parser", "c18_translated_second_msg_attribute_is_refused", "c18_translated_first_msg_attribute_wins",
               "c18_translated_variant_attr_on_struct_message_is_refused", "c18_translated_bare_payload_and_data",
-              "c18_translated_missing_or_duplicated_handler", "c18_translated_constructor_check", "c18_translated_constructor_verdicts"]
+              ]
+THEOREMS_S = ["c18_translated_missing_or_duplicated_handler", "c18_translated_constructor_check", "c18_translated_constructor_verdicts"]
 THEOREMS = ["c18_missing_constructor", "c18_parameterised_constructor", "c18_no_instantiate", "c18_several_instantiate",
             "c18_several_migrate", "c18_interface_generics", "c18_interface_without_error_type", "c18_instantiate_inside_interface",
             "c18_migrate_inside_interface", "c18_bad_attribute_argument_is_reported", "c18_method_attribute_error_rejects_the_contract",
@@ -166,6 +167,7 @@ def check(run, replay=None):
     from . import libcommon
     libcommon.regen_imp(run)
     run.prove("Props/C18T", THEOREMS_T, strengthening=True)
+    run.prove("Props/C18S", THEOREMS_S, strengthening=True)       # struct_msg.rs / parser/mod.rs (separate translations)
     # ---- contracts / interfaces with planted edits
     g = gen.ProgGen(rng)
     progs, metas = [], []
